@@ -23,6 +23,11 @@ def oracle(case, block):
     F = [WE[e] for e in range(m) if index[e] >= dim]
     if not is_forest(n, F): return "on-forest edges contain a cycle"
     if components(n, F) != c: return "on-forest edges do not connect every component"
+    # copies answer like the original
+    orig = ["index"] + line(block, "index") + ["rev"] + line(block, "rev") + ["onforest"] + line(block, "onforest") + ["dim", str(dim), "k", str(k)]
+    for tag in ("assigned", "copied"):
+        got = line(block, tag)
+        if got is not None and got != orig: return "a %s ForestIndex answers differently from the original (e.g. dimension/is_on_forest)" % tag
     return None
 
 def run(tier, replay=None):
